@@ -297,6 +297,8 @@ def gen_program(r, name, nfuncs=None, offenders=False, threads=0, use_random=Fal
                     p.emit(1, "g2 = gen0(4, ctx, out)", fn, "assign", scope)
                     p.emit(1, "out.append((tag, next(g2), next(g2)))", fn, "stmt", scope + ["g2"])
                     scope = scope + ["g2"]
+            elif use_random and r.random() < 0.5:
+                p.emit(1, "out.append((tag, 'rnd', _hr.random()))", fn, "stmt", scope)
             elif classes:
                 v = "o%d" % vi
                 vi += 1
